@@ -107,10 +107,24 @@ const (
 	WGo
 	WNested
 	WBlock
+	WAssignClosure   // fn := func() { S }
+	WAssignCallRHS   // y = func() int { S; return 0 }()
+	WVarClosure      // var fn = func() { S }
+	WArgClosure      // use(func() { S })
+	WLitClosure      // _ = []func(){func() { S }}
+	WCompoundRHS     // y += func() int { S; return 0 }()
+	WIfCondClosure   // if func() bool { S; return true }() { }
+	WRangeClosure    // for range func() []int { S; return nil }() { }
+	WElse            // if y > 0 { } else { S }
+	WLabeled         // L: for { S; break L }
+	WTypeSwitch      // switch any(y).(type) { case int: S }
+	WReturnedClosure // _ = func() func() { return func() { S } }
 	nWrap
 )
 
-var WrapNames = []string{"none", "if", "for", "switch", "select", "closure", "defer", "go", "nested", "block"}
+var WrapNames = []string{"none", "if", "for", "switch", "select", "closure", "defer", "go", "nested", "block",
+	"assigned-closure", "closure-call-in-assign-rhs", "var-closure", "closure-argument", "closure-in-literal", "closure-call-in-compound-rhs",
+	"closure-in-if-condition", "closure-in-range-expr", "else", "labeled", "type-switch", "returned-closure"}
 
 func (w Wrapper) String() string { return WrapNames[w] }
 
@@ -558,6 +572,52 @@ func (r *renderer) section(w *lineWriter, file string, bi int, wr Wrapper, ptrR,
 	case WBlock:
 		w.add("\t{")
 		ind, closeLines = "\t\t", []string{"\t}"}
+	case WAssignClosure:
+		r.ctr++
+		fn := fmt.Sprintf("fn%d", r.ctr)
+		w.add("\t" + fn + " := func() {")
+		ind, closeLines = "\t\t", []string{"\t}", "\t_ = " + fn}
+	case WAssignCallRHS:
+		w.add("\ty = func() int {")
+		ind, closeLines = "\t\t", []string{"\t\treturn 0", "\t}()"}
+	case WVarClosure:
+		r.ctr++
+		fn := fmt.Sprintf("fn%d", r.ctr)
+		w.add("\tvar " + fn + " = func() {")
+		ind, closeLines = "\t\t", []string{"\t}", "\t_ = " + fn}
+	case WArgClosure:
+		w.add("\tuse(func() {")
+		ind, closeLines = "\t\t", []string{"\t})"}
+	case WLitClosure:
+		w.add("\t_ = []func(){func() {")
+		ind, closeLines = "\t\t", []string{"\t}}"}
+	case WCompoundRHS:
+		w.add("\ty += func() int {")
+		ind, closeLines = "\t\t", []string{"\t\treturn 0", "\t}()"}
+	case WIfCondClosure:
+		w.add("\tif func() bool {")
+		ind, closeLines = "\t\t", []string{"\t\treturn true", "\t}() {", "\t}"}
+	case WRangeClosure:
+		w.add("\tfor range func() []int {")
+		ind, closeLines = "\t\t", []string{"\t\treturn nil", "\t}() {", "\t}"}
+	case WElse:
+		w.add("\tif y > 0 {")
+		w.add("\t} else {")
+		ind, closeLines = "\t\t", []string{"\t}"}
+	case WLabeled:
+		r.ctr++
+		lb := fmt.Sprintf("L%d", r.ctr)
+		w.add("\t" + lb + ":")
+		w.add("\tfor {")
+		ind, closeLines = "\t\t", []string{"\t\tbreak " + lb, "\t}"}
+	case WTypeSwitch:
+		w.add("\tswitch any(y).(type) {")
+		w.add("\tcase int:")
+		ind, closeLines = "\t\t", []string{"\t}"}
+	case WReturnedClosure:
+		w.add("\t_ = func() func() {")
+		w.add("\t\treturn func() {")
+		ind, closeLines = "\t\t\t", []string{"\t\t}", "\t}"}
 	}
 	for si := range r.spec.Sites {
 		st := &r.spec.Sites[si]
@@ -594,3 +654,6 @@ func (r *renderer) record(st *Site, bi int, wr Wrapper, file string, line int) {
 	}
 	r.out.Sites = append(r.out.Sites, SiteInst{Site: st, BlockID: id, Block: bi, Wrap: wr, File: file, Line: line})
 }
+
+// NumWrappers is the number of wrapper kinds.
+func NumWrappers() Wrapper { return nWrap }
